@@ -73,7 +73,8 @@ OkStep(st, e) ==
            WithHd(st, [open |-> TRUE, name |-> e.name, view |-> st.files[e.name], cur |-> 0,
                        known |-> TRUE, fill |-> 0, clean |-> TRUE]), "open_stream")
     [] e.op = "create_stream" ->
-         V(TRUE, [st EXCEPT !.files = (e.name :> <<>>) @@ @,
+         \* an Ok create_stream makes the content known again (empty), whatever failed on that name before
+         V(TRUE, [st EXCEPT !.files = (e.name :> <<>>) @@ @, !.taint = @ \ {e.name},
                             !.hd = [open |-> TRUE, name |-> e.name, view |-> <<>>, cur |-> 0,
                                     known |-> TRUE, fill |-> 0, clean |-> TRUE]], "create_stream")
     [] e.op = "remove_stream" ->
@@ -218,6 +219,11 @@ OpStep(e) ==
        THEN \* "later calls may fail" - but not this one: the stream was flushed with Ok, no failed call touched
             \* it, and every failed call has been retried successfully; its bytes must be read back
             /\ Fail("C13", "flushed-stream-unreadable", e) /\ skip' = TRUE /\ UNCHANGED s
+       ELSE IF e.op \in {"open_stream", "entry"} /\ s.mode = "rw_faults" /\ ~fired /\ e.name \in DOMAIN s.files
+               /\ e.name \notin s.taint /\ s.unrec = {}
+       THEN \* likewise: a stream no failed call touched cannot be found any more although every failed call
+            \* has been retried successfully
+            /\ Fail("C13", "stream-lost", e) /\ skip' = TRUE /\ UNCHANGED s
        ELSE IF s.mode = "plain" \/ ~(fired \/ s.faulted)
        THEN /\ Fail("C06", "unexpected-error", e)
             /\ PrintT(<<"EXPECTED", exp, "GOT", e.res>>)
